@@ -29,6 +29,7 @@ func checkC03(r *Run) {
 	ruleA2(r, p)
 	ruleA12Copy(r, p)                             // Output() gives the new logger its own context bytes (UpdateContext on both would cut fields)
 	ruleTimestampHookUnconditional(r, p, "HOOKS") // the timestamp hook adds its field on every path
+	ruleContextHookBuildersUnconditional(r, p, "HOOKS") // With().Timestamp()/Caller() register their hook on every path
 	ruleHlogIsolation(r, p)                       // per-request loggers: one request's fields never show up in another's events
 	ruleUpdateContextApplies(r, p, "UPDCTX")      // fields added through UpdateContext are part of the chain whatever the logger's level
 	ruleAppendersKeepInputs(r, p, "PURE", []string{"internal/json", cborRel})
